@@ -630,8 +630,8 @@ def tie_equiv(a, b):
         return False
     # NaN cells are pandas' padding for fields a row does not have (see rec_eq)
     key = lambda r: sorted((k, v) for k, v in rec_dict(r).items() if v != ("nan",))
-    ka = sorted((l, key(r)) for l, r in a)
-    kb = sorted((l, key(r)) for l, r in b)
+    ka = sorted(key(r) for _, r in a)
+    kb = sorted(key(r) for _, r in b)
     return ka == kb
 
 
@@ -691,7 +691,11 @@ def run_fields(case, drv):
     if "ok" in impl:
         spec = drv.call("c16.spec_fields", cls=name, cols=impl["ok"]["cols"])["ok"]
         ok = bool(spec) and len(impl["ok"]["rows"]) == want and not undeclared
-        agree = "ok" in m and m["ok"]["cols"] == impl["ok"]["cols"] and tbl_eq(impl["ok"]["rows"], m["ok"]["rows"])
+        # column order and row labels are pandas detail the property does not name
+        agree = "ok" in m and sorted(m["ok"]["cols"]) == sorted(impl["ok"]["cols"]) and \
+            tbl_eq(impl["ok"]["rows"], m["ok"]["rows"], labels=False)
+        if agree and (m["ok"]["cols"] != impl["ok"]["cols"] or not tbl_eq(impl["ok"]["rows"], m["ok"]["rows"])):
+            tags.append("labels-or-column-order-differ")
     else:
         ok = undeclared            # refusing a dict with an undeclared key keeps the declared fields; any other failure does not
         agree = "err" in m and m["err"] == impl["err"]
@@ -741,8 +745,10 @@ def run_history(case, drv):
             fail("agree", step="init", impl=ec, model=m0)
         return dict(claim="history", ok=True, agree=agree, dom=False, tags=tags + ["init-raises"], nontrivial=False, detail=detail)
     cols, tbl = state(cur)
-    if "ok" not in m0 or not tbl_eq(tbl, m0["ok"]["rows"]) or m0["ok"]["cols"] != cols:
+    if "ok" not in m0 or not tbl_eq(tbl, m0["ok"]["rows"], labels=False) or sorted(m0["ok"]["cols"]) != sorted(cols):
         fail("agree", step="init", impl=dict(cols=cols, rows=tbl), model=m0)
+    elif not tbl_eq(tbl, m0["ok"]["rows"]):
+        tags.append("labels-differ")
     init_tbl = m0["ok"]["rows"] if "ok" in m0 else tbl
     wire_ops = []
     synced = True            # the whole-run comparison is meaningful while no sort chose another tie order
@@ -823,12 +829,15 @@ def run_history(case, drv):
         if "err" in impl or "err" in m:
             if not ("err" in impl and "err" in m and impl["err"] == m["err"]):
                 fail("agree", step=si, op=o, impl=impl, model=m)
-        elif not tbl_eq(impl["ok"], m["ok"]):
+        elif not tbl_eq(impl["ok"], m["ok"], labels=False):
+            # row labels are not observable through the list API (Props/C16 labels_irrelevant): rows only
             if sorting and tie_equiv(impl["ok"], m["ok"]):
                 tags.append("tie-order")
                 synced = False
             else:
                 fail("agree", step=si, op=o, impl=impl, model=m, prev=tbl)
+        elif not tbl_eq(impl["ok"], m["ok"]):
+            tags.append("labels-differ")
         so_ = dict(wo, ys=[canon_rec(r) for r in wo["ys"]]) if "ys" in wo else wo
         sp = drv.call("c16.spec_step", prev=plain(tbl), o=so_,
                       next=({"ok": plain(impl["ok"])} if "ok" in impl else impl))["ok"]
@@ -846,7 +855,7 @@ def run_history(case, drv):
     else:
         if synced and wire_ops:
             mr = drv.call("c16.run", rows=init_tbl, ops=wire_ops)
-            if "ok" not in mr or not tbl_eq(tbl, mr["ok"]):
+            if "ok" not in mr or not tbl_eq(tbl, mr["ok"], labels=False):
                 fail("agree", step="run", impl=tbl, model=mr)
     return dict(claim="history", ok=ok, agree=agree, dom=True, kf=None, tags=sorted(set(tags)), nontrivial=nontrivial,
                 detail=detail)
